@@ -20,7 +20,7 @@ RULE = (
 )
 TIERS = {"quick": {"shards": 8, "n": 700, "budget_s": 200}, "thorough": {"shards": 16, "n": 25000, "budget_s": 2700}}
 FLOOR = {"quick": 300, "thorough": 20000}
-REQUIRED_LABELS = {"quick": ["kind:literal", "kind:optliteral", "kind:dict", "kind:jlist", "empty-header", "n_params=0"], "thorough": []}
+REQUIRED_LABELS = {"quick": ["d:collection", "kind:literal", "kind:optliteral", "kind:dict", "kind:jlist", "empty-header", "n_params=0"], "thorough": []}
 ASSUMPTIONS = ["jsonschema %s Draft202012Validator is the reference for schema validity" % "(offline wheel)"]
 
 
